@@ -9,7 +9,7 @@ use std::collections::BTreeMap;
 
 fn scenario(rng: &mut Rng, steps: usize, async_persist: bool, with_disc: bool) -> (Net, Vec<String>) {
 	let mut viol: Vec<String> = vec![];
-	let mut at_limit: Vec<(usize, &'static str, u64)> = vec![];
+	let mut at_limit: Vec<(usize, &'static str, u64, bool)> = vec![]; // (payment, which bound, amount, raced: the peer had / later originated HTLCs the sender could not know when it read the limit)
 	let mut user_failed: Vec<usize> = vec![];
 	let cfg = if rng.chance(1, 2) { Some(lightning::ln::functional_test_utils::test_legacy_channel_config()) } else { None };
 	let mut net = Net::new(2, vec![cfg.clone(), cfg]);
@@ -50,10 +50,12 @@ fn scenario(rng: &mut Rng, steps: usize, async_persist: bool, with_disc: bool) -
 						else if before != after { viol.push(format!("refused send of {} msat (limits [{}, {}]) changed the channel", amt, min, lim)); }
 					} else {
 						let amt = match sel { 0 => min, 1 => lim, 2 => 354_000 + rng.below(2000), _ => min + rng.below(lim - min + 1) }.clamp(min, lim);
+						let raced = peer_has_unknown_adds(&net, a, b);
+						mark_raced(&net, &mut at_limit, b);
 						let r = net.send(&[a, b], &[c], amt, 70 + rng.below(40) as u32);
 						net.process_events(a);
 						match r {
-							Ok(p) if !locally_failed(&net, a, Some(p)) => { if amt == lim { at_limit.push((p, "limit", amt)); } else if amt == min { at_limit.push((p, "minimum", amt)); } },
+							Ok(p) if !locally_failed(&net, a, Some(p)) => { if amt == lim { at_limit.push((p, "limit", amt, raced)); } else if amt == min { at_limit.push((p, "minimum", amt, raced)); } },
 							Ok(_) => viol.push(format!("send of {} msat inside the reported limits [{}, {}] was refused locally (path failed at once)", amt, min, lim)),
 							Err(e) => viol.push(format!("send of {} msat inside the reported limits [{}, {}] was refused locally: {}", amt, min, lim, e)),
 						}
@@ -69,10 +71,12 @@ fn scenario(rng: &mut Rng, steps: usize, async_persist: bool, with_disc: bool) -
 					let lim = net.nodes[j].node.list_channels()[0].next_outbound_htlc_limit_msat;
 					let min = net.nodes[j].node.list_channels()[0].next_outbound_htlc_minimum_msat;
 					if lim >= min && lim > 0 {
+						let raced = peer_has_unknown_adds(&net, j, i);
+						mark_raced(&net, &mut at_limit, i);
 						let r = net.send(&[j, i], &[c], lim, 80);
 						net.process_events(j);
 						match r {
-							Ok(p) if !locally_failed(&net, j, Some(p)) => at_limit.push((p, "limit", lim)),
+							Ok(p) if !locally_failed(&net, j, Some(p)) => at_limit.push((p, "limit", lim, raced)),
 							_ => viol.push(format!("send of {} msat exactly at the reported limit (right after processing {:?}) was refused locally", lim, kind)),
 						}
 					}
@@ -107,13 +111,43 @@ fn scenario(rng: &mut Rng, steps: usize, async_persist: bool, with_disc: bool) -
 	net.sample_balances(c);
 	// the reported limits are exact: an HTLC sent exactly at the limit / minimum is accepted by the peer
 	// (it ends up claimable there and, since the drain claims everything claimable, PaymentSent at the sender)
-	for (p, what, amt) in at_limit {
+	for (p, what, amt, raced) in at_limit {
 		if user_failed.contains(&p) { continue; }
 		let h = net.pays[p].hash; let from = net.pays[p].from;
 		let sent = net.events[from].iter().any(|e| matches!(e, lightning::events::Event::PaymentSent { payment_hash, .. } if *payment_hash == h));
-		if !sent { viol.push(format!("HTLC of {} msat sent exactly at the reported {} was not accepted by the peer (no PaymentSent after the drain)", amt, what)); }
+		if !sent {
+			let to = net.pays[p].to;
+			let hh = format!("{}", h);
+			let why: Vec<String> = net.events[to].iter().filter_map(|e| match e { lightning::events::Event::HTLCHandlingFailed { failure_type, failure_reason, .. } if format!("{:?}", failure_type).contains(&hh) => Some(format!("{:?}", failure_reason).chars().take(120).collect::<String>()), _ => None }).collect();
+			// A limit is computed from what the sender knows. When the peer holds (holding cell / in flight) or later originates
+			// HTLCs of its own that the sender could not have seen, the commitment the peer evaluates contains more HTLCs (more
+			// fee for the funder) than the one the limit was computed for: crossing updates, inherent to the asynchronous
+			// protocol, not an inexact limit. Such probes are exempt when the peer's reason is the balance check.
+			if raced && why.iter().all(|w| w.contains("ChannelBalanceOverdrawn")) && !why.is_empty() { continue; }
+			let ch = &net.nodes[from].node.list_channels();
+			let outbound = ch.get(0).map(|c| c.is_outbound).unwrap_or(false);
+			viol.push(format!("HTLC of {} msat sent exactly at the reported {} was not accepted by the peer (no PaymentSent after the drain); sender n{} is the {}; peer's HTLCHandlingFailed events: {:?}", amt, what, from, if outbound { "funder" } else { "NON-funder" }, why));
+		}
 	}
 	(net, viol)
+}
+
+/// does `b` have outbound HTLCs (holding cell included) that `a` has not received yet?
+fn peer_has_unknown_adds(net: &Net, a: usize, b: usize) -> bool {
+	let theirs = net.nodes[b].node.list_channels(); let ours = net.nodes[a].node.list_channels();
+	match (theirs.get(0), ours.get(0)) {
+		(Some(t), Some(o)) => t.pending_outbound_htlcs.iter().any(|h| !o.pending_inbound_htlcs.iter().any(|i| i.payment_hash == h.payment_hash)),
+		_ => true,
+	}
+}
+/// node `x` is about to originate a new HTLC: every earlier at-limit probe sent TO `x` that is not settled yet has raced
+fn mark_raced(net: &Net, at_limit: &mut Vec<(usize, &'static str, u64, bool)>, x: usize) {
+	for e in at_limit.iter_mut() {
+		if net.pays[e.0].to != x { continue; }
+		let h = net.pays[e.0].hash; let from = net.pays[e.0].from;
+		let sent = net.events[from].iter().any(|ev| matches!(ev, lightning::events::Event::PaymentSent { payment_hash, .. } if *payment_hash == h));
+		if !sent { e.3 = true; }
+	}
 }
 
 /// did the sender report the path of payment p as failed without ever putting an HTLC on the wire?
@@ -322,7 +356,8 @@ fn main() {
 		let with_disc = sc % 3 == 2 || sc % 4 == 1;
 		let mut sub = Rng::new(rng.next());
 		let net = match guarded(std::panic::AssertUnwindSafe(|| scenario(&mut sub, steps, async_persist, with_disc))) {
-			Ok((n, viol)) => { for v in viol { rec.oracle_fail(format!("scenario {}: {}", sc, v)); } n },
+			// the send-limit exactness oracles state C01's last sentence: they are reported under C01 only
+			Ok((n, viol)) => { let c01 = std::env::var("VERIF_PROPERTY").map(|p| p == "C01").unwrap_or(true); for v in viol { if c01 || !v.contains("limit") { rec.oracle_fail(format!("scenario {}: {}", sc, v)); } } n },
 			Err(p) => { rec.oracle_fail(format!("scenario {} (seed {}, async={}) panicked: {}", sc, args.seed, async_persist, p.chars().take(200).collect::<String>())); continue; },
 		};
 		if std::env::var("VERIF_TRACE").is_ok() { eprintln!("=== scenario {}", sc); for o in &net.trace { if !matches!(o, Obs::Balance { .. }) { eprintln!("  {}", fmt_obs(o)); } } }
